@@ -426,8 +426,8 @@ func Run(c *vk.Ctx) {
 						c.Violate(fmt.Sprintf("var=%s by_name=%v ops=%s class=%s", sp.name, byName, strings.Join(mc.Ops, ","), cls), g, mc)
 					}
 				}
-				if len(prefix) == depth {
-					return
+				if len(prefix) == depth || heapVars[sp.name] && len(prefix) == 5 {
+					return // heap-original variables (with the GC operation) are explored to depth 5 in both tiers
 				}
 				for o := 0; o < alpha; o++ {
 					rec(append(prefix[:len(prefix):len(prefix)], o))
